@@ -9,7 +9,7 @@ value identities are distinct (`FreshIds`, what the generator guarantees; needed
 twice").  So a `FAIL` of `drv_mon` on an implementation line that the model's own line passes is a difference
 between the implementation and the model, never an artefact of the monitor.
 
-Per check (K1 … K6) there is a separate theorem for every reachable state.
+Per check (K1 … K10) there is a separate theorem for every reachable state.
 -/
 namespace M1
 namespace Mon
@@ -106,7 +106,8 @@ end Mon
 
 /-- **The monitor never rejects the model**: for every finite history (with distinct value identities), every check
 of the monitor (`checkOp` = K1 count = owners, K2 allocator / destructor event discipline, K3 no leak, K4 gate
-verdicts, K5 stored addresses, K6 union variants) passes on the model's own observations. -/
+verdicts, K5 stored addresses, K6 union variants, K7 copy-on-write, K8 unwrapping, K9 thin ⇄ fat conversions,
+K10 uninitialised views) passes on the model's own observations. -/
 theorem monitor_accepts_model (ops : List Op) (h : FreshIds ops) : Mon.checkTrace (Mon.modelTrace ops) = [] :=
   Mon.monitor_accepts_model_aux ops h
 
@@ -139,6 +140,27 @@ theorem K4_sound_run (ops : List Op) (op : Op) :
 theorem K6_sound_run (ops : List Op) (op : Op) :
     checkK6 (observeSlots (run ops)) op (observe (run ops) op) = [] := K6_sound (inv_run ops) op
 
+/-- K7 (C08): `make_mut` / `make_unique` — a sole owner keeps its allocation without `Clone` or allocation; a shared
+handle is redirected to a fresh solely-owned allocation with one `Clone`, the old allocation loses exactly one owner
+and no other handle on it shows anything else than before; the write target shows the written value -/
+theorem K7_sound_run (ops : List Op) (op : Op) :
+    checkK7 (observeSlots (run ops)) op (observe (run ops) op) = [] := K7_sound (inv_run ops) (leninv_run ops) op
+
+/-- K8 (C09): a granted `try_unwrap` and `into_inner` run no destructor and release the allocation; `unwrap_or_clone`
+on a sole owner neither clones nor destroys, on a shared handle clones at most once and releases one owner -/
+theorem K8_sound_run (ops : List Op) (op : Op) :
+    checkK8 (observeSlots (run ops)) op (observe (run ops) op) = [] := K8_sound (inv_run ops) op
+
+/-- K9 (C10): `ThinArc` ⇄ fat / raw conversions and a successful `into_thin` keep block, length, contents and owners
+and emit nothing; a refused `into_thin` releases its argument -/
+theorem K9_sound_run (ops : List Op) (op : Op) :
+    checkK9 (observeSlots (run ops)) op (observe (run ops) op) = [] := K9_sound (inv_run ops) (leninv_run ops) op
+
+/-- K10 (C15): dropping a handle whose view is `MaybeUninit` runs no destructor but the header's; `assume_init` is a
+cast -/
+theorem K10_sound_run (ops : List Op) (op : Op) :
+    checkK10 (observeSlots (run ops)) op (observe (run ops) op) = [] := K10_sound (inv_run ops) (leninv_run ops) op
+
 /-- K2 + K3 (C01 / C05), with the part of the simulation they need: from a monitor state that describes `run ops`,
 the event fold reports nothing, the leak check reports nothing, and the new monitor state describes the next state -/
 theorem K23_sound (ops : List Op) (op : Op) (hf : FreshIds (ops ++ [op])) (st : MSt) (hr : Rel st (run ops)) :
@@ -148,7 +170,7 @@ theorem K23_sound (ops : List Op) (op : Op) (hf : FreshIds (ops ++ [op])) (st : 
   obtain ⟨h1, h2⟩ := checkOp_sound ops op hf st hr
   have h3 : (checkObsOnly st (observe (run ops) op)).2 = [] := by
     simp only [checkOp, List.append_eq_nil_iff] at h1
-    exact h1.1.1
+    exact h1.1.1.1.1.1.1
   simp only [checkObsOnly, List.append_eq_nil_iff] at h3
   exact ⟨h3.1.1.2, h3.1.2, h2⟩
 
@@ -202,13 +224,81 @@ example : checkTrace ((modelTrace exampleHistory).map wrongFreeSize) = [Fail.fre
 def swallowEvents (x : Op × Obs) : Op × Obs :=
   (x.1, { x.2 with evs := x.2.evs.filter fun e => match e with | .dealloc .. => false | _ => true })
 
-example : checkTrace ((modelTrace exampleHistory).map swallowEvents) = [Fail.leak "C01" 1] := by decide
+example : checkTrace ((modelTrace exampleHistory).map swallowEvents) =
+    [Fail.leak "C01" 1, Fail.unwrapEvents "C09" 2] := by decide
 
 /-- a gate that says "unique" while a second owner exists is a C03 failure -/
 def flipVerdict (x : Op × Obs) : Op × Obs := (x.1, { x.2 with verdict := x.2.verdict.map (!·) })
 
 example : checkTrace ((modelTrace [.create 0 (.new ⟨1, 7⟩), .clone 1 0, .isUnique 0]).map flipVerdict) =
     [Fail.gateVerdict "C03" 0 true false] := by decide
+
+/-! ### K7 – K10 reject what they are there to reject -/
+
+/-- replace the observation of the LAST op of a trace -/
+def doctorLast (f : Obs → Obs) : List (Op × Obs) → List (Op × Obs)
+  | [] => []
+  | [x] => [(x.1, f x.2)]
+  | x :: r => x :: doctorLast f r
+
+/-- what slot `i` shows -/
+def setVals (i : Nat) (d : Dig) (o : Obs) : Obs :=
+  { o with slots := o.slots.map fun e => if e.1 == i then (e.1, { e.2 with vals := some d }) else e }
+
+def cowHistory : List Op := [.create 0 (.new ⟨1, 7⟩), .clone 1 0, .makeMut 1 5 false]
+
+/-- the model: the shared handle is redirected, slot 0 still shows 7 -/
+example : ((modelTrace cowHistory).getLast?.map fun x => x.2.slots.map fun e => (e.1, e.2.blk, e.2.vals)) =
+    some [(1, 1, some ⟨none, some [some ⟨1000000, 5⟩]⟩), (0, 0, some ⟨none, some [some ⟨1, 7⟩]⟩)] := by decide
+
+/-- **a `make_mut` on a shared handle that kept the allocation** (and wrote in place): C08, twice — not redirected,
+and the write is visible through slot 0 -/
+example : checkTrace (doctorLast (fun o => { o with evs := [], slots :=
+      [(1, ⟨.arc, .sized, 0, 0, 1, some 2, some ⟨none, some [some ⟨1, 5⟩]⟩⟩),
+       (0, ⟨.arc, .sized, 0, 0, 1, some 2, some ⟨none, some [some ⟨1, 5⟩]⟩⟩)] }) (modelTrace cowHistory)) =
+    [Fail.cowKept "C08" 1 0, Fail.cowVisible "C08" 1 0] := by decide
+
+/-- **a write visible through another handle**: everything as in the model, but slot 0 shows the written value -/
+example : checkTrace (doctorLast (setVals 0 ⟨none, some [some ⟨1, 5⟩]⟩) (modelTrace cowHistory)) =
+    [Fail.cowVisible "C08" 1 0] := by decide
+
+/-- a shared `make_mut` that did not call `Clone` (the clone event is missing) -/
+example : checkTrace (doctorLast (fun o => { o with evs := o.evs.filter fun e => !isCloneEv e })
+      (modelTrace cowHistory)) = [Fail.cowKept "C08" 1 0] := by decide
+
+/-- **a `try_unwrap` that also ran the destructor** of the value it handed out: C09 -/
+example : checkTrace (doctorLast (fun o => { o with evs := .drop 1 :: o.evs })
+      (modelTrace [.create 0 (.new ⟨1, 7⟩), .tryUnwrap 0])) = [Fail.unwrapEvents "C09" 0] := by decide
+
+/-- an `unwrap_or_clone` on a shared handle that handed out a value without calling `Clone`: C09 -/
+example : checkTrace (doctorLast (fun o => { o with evs := [] })
+      (modelTrace [.create 0 (.new ⟨1, 7⟩), .clone 1 0, .unwrapOrClone 1 false])) =
+    [Fail.unwrapOwners "C09" 1 0] := by decide
+
+/-- the checks that are not proved sound (and not part of `checkOp`) pass on this model trace too -/
+example : unprovenChecks { MSt.init with pre := observeSlots (run (cowHistory.take 2)) } (.makeMut 1 5 false)
+    (observe (run (cowHistory.take 2)) (.makeMut 1 5 false)) = [] := by decide
+
+def thinHistory : List Op := [.create 0 (.hwlFromVec ⟨9, 9⟩ 3 [⟨1, 1⟩, ⟨2, 2⟩]), .intoThin 0]
+
+/-- the model refuses (recorded length 3, real length 2) and releases the argument -/
+example : ((modelTrace thinHistory).getLast?.map fun x => (x.2.panicked, x.2.evs, x.2.slots.length)) =
+    some (true, [.drop 9, .drop 1, .drop 2, .dealloc 0 40 8], 0) := by decide
+
+/-- **an `into_thin` that panicked without releasing** its argument (the slot is still there, nothing happened): C10 -/
+example : checkTrace (doctorLast (fun o => { o with evs := [], slots :=
+      [(0, ⟨.arc, .hwl, 0, 0, 2, some 1, some ⟨some ⟨9, 9⟩, some [some ⟨1, 1⟩, some ⟨2, 2⟩]⟩⟩)] })
+      (modelTrace thinHistory)) = [Fail.thinRefusal "C10" 0] := by decide
+
+/-- **an element destructor run for a `MaybeUninit` view**: the written slot's value is destroyed with the handle: C15 -/
+example : checkTrace (doctorLast (fun o => { o with evs := .drop 5 :: o.evs })
+      (modelTrace [.create 0 (.newUninitSlice 2), .writeSlot 0 0 ⟨5, 50⟩, .drop 0])) =
+    [Fail.uninitDrop "C15" 0] := by decide
+
+/-- … the header's destructor is the one that may (must) run -/
+example : checkTrace (modelTrace [.create 0 (.hsUninit ⟨4, 40⟩ 2), .writeSlot 0 0 ⟨5, 50⟩, .drop 0]) = [] ∧
+    ((modelTrace [.create 0 (.hsUninit ⟨4, 40⟩ 2), .writeSlot 0 0 ⟨5, 50⟩, .drop 0]).getLast?.map (·.2.evs)) =
+      some [.drop 4, .dealloc 0 32 8] := by decide
 
 #print axioms monitor_accepts_model
 #print axioms monitor_accepts_model_perm
@@ -217,6 +307,10 @@ example : checkTrace ((modelTrace [.create 0 (.new ⟨1, 7⟩), .clone 1 0, .isU
 #print axioms K4_sound_run
 #print axioms K5_sound
 #print axioms K6_sound_run
+#print axioms K7_sound_run
+#print axioms K8_sound_run
+#print axioms K9_sound_run
+#print axioms K10_sound_run
 #print axioms step_grow
 #print axioms step_keep
 
